@@ -146,13 +146,16 @@ class GoGen:
             return n
         if k == "named":
             name = t.d["name"]
+            targs = ""
+            if t.d.get("targs"):
+                targs = "[" + ", ".join(self.gotype(t.prog.types[a]) for a in t.d["targs"]) + "]"
             if "." in name:
                 pk, nm = name.rsplit(".", 1)
                 if pk == self.pkg:
-                    return nm
+                    return nm + targs
                 self.imports.add(pk)
-                return pk.rsplit("/", 1)[-1] + "." + nm
-            return name
+                return pk.rsplit("/", 1)[-1] + "." + nm + targs
+            return name + targs
         if k == "slice":
             return "[]" + self.gotype(t.elem())
         if k == "array":
